@@ -1,7 +1,9 @@
 package gen
 
 import (
+	"encoding/json"
 	"fmt"
+	"strings"
 
 	"verifsim/sdl"
 )
@@ -284,7 +286,96 @@ func genConf(r rng, field string) *sdl.Conf {
 }
 
 func genEmbed(r rng, seed uint64, id string) *sdl.Program {
-	return genGraph(r, seed, id, FamEmbed, wireKnobs(r))
+	flat, _ := GenerateTwins(seed, id, id+"e")
+	return flat
+}
+
+var customTags = []string{"simx", "simy"}
+
+// GenerateTwins builds a flat program (every tagged field declared directly on the
+// component) and its embedded re-arrangement (the same fields moved into anonymous,
+// untagged, by-value embedded structs of depth 1..3, exported and unexported carriers).
+// Both carry frame fields of every kind and custom-tagged fields with 0-2 custom scanners.
+func GenerateTwins(seed uint64, idFlat, idEmb string) (*sdl.Program, *sdl.Program) {
+	r := newRng(seed)
+	k := wireKnobs(r)
+	k.PEmbed = 0
+	k.PDup = 0
+	k.MaxTypes = 4
+	p := genGraph(r, seed, idFlat, FamEmbed, k)
+	// configuration: one raw source, a few fields that never fail
+	src := &sdl.Source{ID: "src0", Kind: "raw", Via: "SetConfigLoader", Doc: genDoc(r, 0.9)}
+	p.Sources = []*sdl.Source{src}
+	ns := r.n(0, 2)
+	for i := 0; i < ns; i++ {
+		p.Scanners = append(p.Scanners, &sdl.Scanner{ID: fmt.Sprintf("scan%d", i), Tag: customTags[i]})
+	}
+	for _, t := range p.Types {
+		for fi := 0; fi < r.n(0, 2); fi++ {
+			cf := genConf(r, fmt.Sprintf("C%d", fi))
+			cf.Optional, cf.Validate, cf.Embed = true, "", nil
+			if cf.Menu == "sum" || cf.Menu == "mul" {
+				cf.Menu, cf.Keys, cf.Default = "valueDef", []string{pick(r, cfgLeafInts)}, "1"
+			}
+			t.Config = append(t.Config, cf)
+		}
+		// frame fields of every kind
+		kinds := []string{"untagged", "unexported", "foreign", "named", "taggedEmbed", "ptrEmbed"}
+		for fi, kind := range kinds {
+			if !r.p(0.5) {
+				continue
+			}
+			fr := &sdl.Frame{Kind: kind}
+			switch r.IntN(3) {
+			case 0:
+				fr.GoType = "int"
+			case 1:
+				fr.GoType = "string"
+			default:
+				fr.GoType = "*" + pick(r, p.Types).Name
+			}
+			fr.Field = fmt.Sprintf("R%d", fi)
+			if kind == "unexported" {
+				fr.Field = fmt.Sprintf("r%d", fi)
+			}
+			t.Frame = append(t.Frame, fr)
+		}
+		// custom-tagged fields
+		for fi := 0; fi < r.n(0, 3); fi++ {
+			cu := &sdl.Custom{Field: fmt.Sprintf("X%d", fi), Tag: pick(r, customTags), Val: pick(r, []string{"", "v1", "some-value", "7"}), Exported: true}
+			if r.p(0.2) {
+				cu.Field = fmt.Sprintf("x%d", fi)
+				cu.Exported = false
+			}
+			for ai := 0; ai < r.n(0, 2); ai++ {
+				a := []string{pick(r, []string{"k", "mode", "Level"}) + fmt.Sprint(ai)}
+				for vi := 0; vi < r.n(0, 2); vi++ {
+					a = append(a, pick(r, []string{"a", "b1", "zz"}))
+				}
+				cu.Args = append(cu.Args, a)
+			}
+			t.Custom = append(t.Custom, cu)
+		}
+	}
+	// the twin: same program, fields moved into embedded carriers
+	js := p.JSON()
+	js = strings.ReplaceAll(js, idFlat+"T", idEmb+"T")
+	var q sdl.Program
+	_ = json.Unmarshal([]byte(js), &q)
+	q.ID = idEmb
+	q.Twin = idFlat
+	for _, t := range q.Types {
+		for _, pt := range t.Points {
+			pt.Embed = embedChain(r, 0.8)
+		}
+		for _, cf := range t.Config {
+			cf.Embed = embedChain(r, 0.8)
+		}
+		for _, cu := range t.Custom {
+			cu.Embed = embedChain(r, 0.8)
+		}
+	}
+	return p, &q
 }
 
 func genRace(r rng, seed uint64, id string) *sdl.Program {
